@@ -9,11 +9,12 @@ def tcp_part(ctx):
     must end in a timeout within the bound; the in-memory transport cannot see what TcpTransport.bulk_read itself does with fragments."""
     from units import c18
     for impl in ("sync", "async"):
-        f = c18.check_trickle_session(ctx, impl)
-        if f and "infra" not in f.get("kinds", []):
-            ctx.report.prop_failures.append(dict(f, no_shrink=True, replay_with="c18"))
-        elif f:
-            ctx.report.notes.append("trickle session could not be set up: %s" % f["why"])
+        for mode in ("trickle", "eof_open", "eof_mid"):
+            f = c18.check_trickle_session(ctx, impl, mode=mode)
+            if f and "infra" not in f.get("kinds", []):
+                ctx.report.prop_failures.append(dict(f, no_shrink=True, replay_with="c18"))
+            elif f:
+                ctx.report.notes.append("stall session (%s) could not be set up: %s" % (mode, f["why"]))
 
 
 def _replay_c18(ctx, fl):
